@@ -131,16 +131,18 @@ func (l *Gpos6_1) apply(ctx *Context, a, b int) int {
 	if a == 0 {
 		return -1
 	}
+	// Mark2 is the preceding glyph which is not skipped by the lookup flags.
+	// If this glyph has no anchors in this subtable, mark1 is not attached
+	// (in particular, it is not attached to a glyph further back).
 	p := a - 1
-	var mark2Idx int
-	for p >= 0 {
-		mark2Idx, ok = l.Mark2Cov[seq[p].GID]
-		if ok {
-			break
-		}
+	for p >= 0 && !ctx.keep.Keep(seq[p].GID) {
 		p--
 	}
 	if p < 0 {
+		return -1
+	}
+	mark2Idx, ok := l.Mark2Cov[seq[p].GID]
+	if !ok {
 		return -1
 	}
 	if int(mark1Record.Class) >= len(l.Mark2Array[mark2Idx]) {
